@@ -65,13 +65,23 @@ type gen struct {
 	g     *Grammar
 	cur   int // rule being generated
 	nrule int
+	wild  bool // no well-formedness discipline: any rule anywhere (left recursion, nullable loops); never executed, only compiled
 }
 
 var alphaPool = []rune("abcdxyz01")
 var wideRunes = []rune{'é', '世', 'ß', 0x1F600}
 
-// Generate builds one grammar from a seed.
-func Generate(seed uint64, name string) *Grammar {
+// GenerateWild builds a grammar without the well-formedness discipline:
+// references go anywhere, so direct, indirect and mutual left recursion,
+// recursion under ? * & ! and loops over nullable operands all occur. Such
+// grammars are for the generator only (C09 quantifies over all grammars);
+// the parsers they yield are never run.
+func GenerateWild(seed uint64, name string) *Grammar { return generate(seed, name, true) }
+
+// Generate builds one well-formed grammar from a seed.
+func Generate(seed uint64, name string) *Grammar { return generate(seed, name, false) }
+
+func generate(seed uint64, name string, wild bool) *Grammar {
 	r := simrt.NewRNG(seed)
 	g := &Grammar{Name: name, Salt: r.Uint64(), HostRefs: true}
 	na := 2 + r.Intn(4)
@@ -86,7 +96,7 @@ func Generate(seed uint64, name string) *Grammar {
 	}
 	n := 2 + r.Intn(6)
 	g.Rules = make([]*Expr, n)
-	ge := &gen{r: r, g: g, nrule: n}
+	ge := &gen{r: r, g: g, nrule: n, wild: wild}
 	g.Anchored = r.Chance(2, 3)
 	for i := n - 1; i >= 0; i-- {
 		ge.cur = i
@@ -163,6 +173,14 @@ func isLetter(c rune) bool { return (c >= 'a' && c <= 'z') || (c >= 'A' && c <= 
 // the enclosing sequence, so any rule may be referenced.
 func (ge *gen) ref(guarded bool) *Expr {
 	r := ge.r
+	if ge.wild {
+		j := r.Intn(ge.nrule)
+		c := false
+		if ge.g.Rules[j] != nil {
+			c = ge.g.Rules[j].Consuming
+		}
+		return &Expr{Kind: KRef, Ref: j, Consuming: c || r.Chance(1, 2)}
+	}
 	if guarded && r.Chance(1, 3) {
 		j := r.Intn(ge.cur + 1)
 		return &Expr{Kind: KRef, Ref: j, Consuming: false}
@@ -284,6 +302,11 @@ func (ge *gen) seq(depth int, need bool, guarded bool) *Expr {
 
 func (ge *gen) choice(depth int, need bool, guarded bool) *Expr {
 	r := ge.r
+	if r.Chance(1, 5) {
+		if e := ge.lookaheadThenRetry(depth, need, guarded); e != nil {
+			return e
+		}
+	}
 	n := 2 + r.Intn(3)
 	e := &Expr{Kind: KChoice, Consuming: true}
 	for range n {
@@ -296,6 +319,34 @@ func (ge *gen) choice(depth int, need bool, guarded bool) *Expr {
 	if !need && r.Chance(1, 8) {
 		e.Kids = append(e.Kids, &Expr{Kind: KEmpty})
 		e.Consuming = false
+	}
+	return e
+}
+
+// lookaheadThenRetry: "lookahead followed by consumption" across
+// alternatives — a rule is entered inside !X (or &X), the alternative then
+// fails or not, and a later alternative enters X again at the same offset:
+//
+//	!X s / X t        &X u / X v
+func (ge *gen) lookaheadThenRetry(depth int, need bool, guarded bool) *Expr {
+	x := ge.ref(guarded)
+	if x == nil || x.Kind != KRef {
+		return nil
+	}
+	r := ge.r
+	kind := KNot
+	if r.Chance(1, 3) {
+		kind = KAnd
+	}
+	first := &Expr{Kind: KSeq, Kids: []*Expr{{Kind: kind, Kids: []*Expr{clone(x)}}, ge.expr(depth-1, need, guarded)}}
+	first.Consuming = first.Kids[1].Consuming
+	second := &Expr{Kind: KSeq, Kids: []*Expr{clone(x), ge.expr(depth-1, need && !x.Consuming, guarded || x.Consuming)}}
+	second.Consuming = x.Consuming || second.Kids[1].Consuming
+	e := &Expr{Kind: KChoice, Kids: []*Expr{first, second}, Consuming: first.Consuming && second.Consuming}
+	if r.Chance(1, 2) {
+		third := ge.expr(depth-1, need, guarded)
+		e.Kids = append(e.Kids, third)
+		e.Consuming = e.Consuming && third.Consuming
 	}
 	return e
 }
